@@ -181,11 +181,163 @@ def _gen_box(rng, am):
     return box, fam
 
 
-def gen_system(rng, am, fam_box=None, extra=(), far=False):
+# names of the extra per-atom properties: the classical ones, one- and two-letter names, names that are substrings /
+# superstrings of the reserved keys 'pos' and 'atype', names with a blank, non-ASCII names
+NAME_POOL = ['q', 'v', 'stress', 'tag', 'p', 'o', 's', 'po', 'os', 'pos2', 'xpos', 'pos_0', 'atyp', 'atype2', 'a', 't', 'ty',
+             'type', 'id', 'x', 'm', 'charge', 'site', 'fixed', 'spin up', '\u03c3', '\u0437\u0430\u0440\u044f\u0434', 'P', 'Pos']
+STRINGS = ['4a', '4b', '8c', 'Fe1', 'x']
+PBCS = [(bool(i & 4), bool(i & 2), bool(i & 1)) for i in range(8)]
+
+
+def gen_pbc(rng):
+    """half of the systems fully periodic, the others any of the 8 settings."""
+    return [True, True, True] if rng.random() < 0.5 else list(rng.choice(PBCS))
+
+
+def gen_props(rng, n):
+    """per-atom properties [name, kind, values]: a float scalar, a float vector, a non-symmetric 3x3 tensor with nine
+    different entries and an integer that is unique per atom (a replica carrying another atom's - or a transposed /
+    re-tiled - value cannot go unnoticed), half of the time also a string label and / or a flag; names drawn from
+    NAME_POOL. kinds: f float, i int, s string, b bool."""
+    ns = rng.random() < 0.5
+    nb = rng.random() < 0.5
+    names = rng.sample(NAME_POOL, 4 + ns + nb)
+    props = [[names[0], 'f', [cm.dyadic(rng, -2, 2, 2) for _ in range(n)]],
+             [names[1], 'f', [[cm.dyadic(rng, -2, 2, 2) for _ in range(3)] for _ in range(n)]],
+             [names[2], 'f', [[[cm.dyadic(rng, -4, 4, 3) for _ in range(3)] for _ in range(3)] for _ in range(n)]],
+             [names[3], 'i', rng.sample(range(1, 50), n)]]
+    if ns:
+        props.append([names[4], 's', [rng.choice(STRINGS) for _ in range(n)]])
+    if nb:
+        props.append([names[4 + ns], 'b', [rng.random() < 0.5 for _ in range(n)]])
+    rng.shuffle(props)
+    return props
+
+
+# what may have been done to the ONE System object before supersize / rotate / a conversion is called on it
+# (no simple fractions of the rungs 1e-4 .. 1e-7 of rotate's tolerance ladder: a strain times a grid coordinate must not put an
+# atom exactly one rung from a face of the new cell, see docs "knife edges")
+EPS = [5.3e-6, -3.1e-6, 1.3e-7, 2.3e-4, -1.3e-12, 7.7e-6, 1.1e-3]
+
+
+def gen_history(rng, iso=False, keep_rel=False, pbc_ops=True):
+    """1-4 operations: reads of the scaled positions / reciprocal vectors (which fill caches), dilations and strains of
+    a few ppm .. 1e-3 with the relative coordinates held (`box_set(..., scale=True)`) or with the Cartesian positions
+    held (`keep_rel` False only), origin moves (atoms carried along), writes through the Box setters, pbc changes, calls of the operations
+    themselves (results thrown away). `iso`: isotropic dilations only (the crystal family survives)."""
+    ops = []
+    for _ in range(rng.randint(1, 4)):
+        r = rng.random()
+        if r < 0.25:
+            ops.append(['read'])
+        elif r < 0.32:
+            ops.append(['recip'])
+        elif r < 0.62:
+            e = rng.choice(EPS)
+            if iso or rng.random() < 0.5:
+                F = [[1 + e if i == j else 0.0 for j in range(3)] for i in range(3)]
+            else:
+                F = [[(1.0 if i == j else 0.0) + e * rng.choice([-1, 0, 0.5, 1]) for j in range(3)] for i in range(3)]
+            how = rng.choice(['box_set', 'box_set', 'box_set', 'setter-rescale'] + ([] if keep_rel else ['box_set-cart', 'setter']))
+            ops.append(['strain', F, how])
+        elif r < 0.72:
+            ops.append(['origin', [cm.dyadic(rng, -1, 1, 3) for _ in range(3)], rng.choice(['box_set', 'setter-rescale'])])
+        elif r < 0.80:
+            ops.append(['rewrite-pos'])
+        elif r < 0.86 and pbc_ops:
+            ops.append(['pbc', list(rng.choice(PBCS))])
+        elif r < 0.93:
+            ops.append(['call-supersize', [rng.choice([1, 2, -1]), rng.choice([1, -2]), [-1, 1]]])
+        else:
+            ops.append(['call-rotate', rng.choice([[[0, 1, 0], [0, 0, 1], [1, 0, 0]], [[1, 1, 0], [-1, 1, 0], [0, 0, 1]],
+                                                   [[1, 0, 0], [0, 1, 0], [0, 0, 1]]])])
+    # the classic stale-cache sequence in front of the call, a third of the time: read, small dilation, (read)
+    if rng.random() < 0.35:
+        e = rng.choice(EPS[:4])
+        ops += [['read'], ['strain', [[1 + e if i == j else 0.0 for j in range(3)] for i in range(3)], 'box_set']]
+    return ops
+
+
+def apply_op(sysm, op):
+    np = _np()
+    kind = op[0]
+    if kind == 'read':
+        sysm.atoms_prop('pos', scale=True)
+    elif kind == 'recip':
+        sysm.box.reciprocal_vects
+    elif kind == 'strain':
+        newv = sysm.box.vects @ np.array(op[1], dtype=float)
+        if op[2] == 'box_set':
+            sysm.box_set(vects=newv, origin=sysm.box.origin, scale=True)
+        elif op[2] == 'box_set-cart':
+            sysm.box_set(vects=newv, origin=sysm.box.origin, scale=False)
+        elif op[2] == 'setter':
+            sysm.box.vects = newv
+        else:   # the relative coordinates read, the cell written through the Box setter, the coordinates written back
+            sp = sysm.atoms_prop('pos', scale=True)
+            sysm.box.vects = newv
+            sysm.atoms_prop('pos', value=sp, scale=True)
+    elif kind == 'origin':
+        # (the atoms move with the cell: they stay inside it)
+        o = sysm.box.origin + np.array(op[1], dtype=float)
+        if op[2] == 'box_set':
+            sysm.box_set(vects=sysm.box.vects, origin=o, scale=True)
+        else:
+            sp = sysm.atoms_prop('pos', scale=True)
+            sysm.box.origin = o
+            sysm.atoms_prop('pos', value=sp, scale=True)
+    elif kind == 'origin-rel':
+        # origin = n . vects (n real), the atoms carried along
+        sysm.box_set(vects=sysm.box.vects, origin=np.array(op[1], dtype=float) @ sysm.box.vects, scale=True)
+    elif kind == 'rewrite-pos':
+        sysm.atoms_prop('pos', value=sysm.atoms_prop('pos', scale=True), scale=True)
+    elif kind == 'pbc':
+        sysm.pbc = op[1]
+    elif kind in ('call-supersize', 'call-rotate'):
+        # the operations themselves, results thrown away (a refusal here - e.g. an atom stored outside the cell - is not
+        # the point: the call under test comes afterwards)
+        try:
+            if kind == 'call-supersize':
+                sysm.supersize(*[tuple(x) if isinstance(x, list) else x for x in op[1]])
+            else:
+                sysm.rotate(op[1])
+        except Exception:  # noqa
+            pass
+    else:
+        raise ValueError(f'unknown history operation {op}')
+
+
+def build_system(am, case):
+    """the System a case dict describes: cell, atoms at the stored relative coordinates, named per-atom properties, pbc,
+    symbols, then the history applied to that one object."""
+    np = _np()
+    from collections import OrderedDict
+    prop = OrderedDict(atype=np.array(case['atype'], dtype=int), pos=np.array(case['spos'], dtype=float).reshape(-1, 3))
+    for name, kind, vals in case['props']:
+        prop[name] = np.array(vals, dtype={'f': float, 'i': int, 's': str, 'b': bool}[kind])
+    sysm = am.System(atoms=am.Atoms(prop=prop), box=am.Box(vects=case['vects'], origin=case['origin']),
+                     pbc=case.get('pbc', (True, True, True)), scale=True, symbols=case.get('symbols'))
+    for op in case.get('history', []):
+        apply_op(sysm, op)
+    sysm._c04 = case
+    return sysm
+
+
+def exact_rel(sysm):
+    """exact relative coordinates of the atoms of the object as it is now (visible state: box.vects, box.origin,
+    atoms.pos), by rational arithmetic - independent of the library's own (cached) reciprocal vectors."""
+    Vi = inv3([[Fraction(x) for x in row] for row in sysm.box.vects.tolist()])
+    o = [Fraction(x) for x in sysm.box.origin.tolist()]
+    return [tuple(vecmat([Fraction(x) - o[j] for j, x in enumerate(p)], Vi)) for p in sysm.atoms.pos.tolist()]
+
+
+def gen_system(rng, am, fam_box=None, extra=(), far=False, history=None):
     """random cell + 1-4 atoms on the 1/8 grid (faces included); `extra`: further atoms given by exact relative
     coordinates (Fractions) or a function box -> such a list, appended when they are at least 1e-3 (relative) away from
     every other atom; `far`: a
-    coordinate 0 is stored as 1.0 (the atom listed on the far face / edge / corner) with probability 1/2."""
+    coordinate 0 is stored as 1.0 (the atom listed on the far face / edge / corner) with probability 1/2.
+    `history`: operations applied to the object before it is handed out (then the exact relative coordinates returned
+    are those of its visible state)."""
     np = _np()
     box, fam = fam_box or gen_box(rng, am)
     n = rng.randint(1, 4)
@@ -205,17 +357,14 @@ def gen_system(rng, am, fam_box=None, extra=(), far=False):
     # make types contiguous from 1 so natypes is sane
     m = {t: i + 1 for i, t in enumerate(sorted(set(atype)))}
     atype = [m[t] for t in atype]
-    q = [cm.dyadic(rng, -2, 2, 2) for _ in range(n)]
-    v = [[cm.dyadic(rng, -2, 2, 2) for _ in range(3)] for _ in range(n)]
-    # a rank-2 per-atom property (all nine entries different, not symmetric) and an integer one that is unique per
-    # atom: a replica that carries another atom's (or a transposed / re-tiled) value cannot go unnoticed
-    stress = [[[cm.dyadic(rng, -4, 4, 3) for _ in range(3)] for _ in range(3)] for _ in range(n)]
-    tag = rng.sample(range(1, 50), n)
-    atoms = am.Atoms(atype=atype, pos=np.array([[float(x) for x in sp] for sp in spos], dtype=float), q=np.array(q),
-                     v=np.array(v), stress=np.array(stress), tag=np.array(tag, dtype=int))
     # half of the systems name their types: an atom type is its number together with what the number stands for
     syms = rng.sample(['Al', 'Ni', 'Cu', 'Fe', 'O'], len(set(atype))) if rng.random() < 0.5 else None
-    sysm = am.System(atoms=atoms, box=box, scale=True, symbols=syms)
+    case = {'vects': box.vects.tolist(), 'origin': box.origin.tolist(), 'spos': [[float(x) for x in sp] for sp in spos],
+            'atype': atype, 'props': gen_props(rng, n), 'pbc': gen_pbc(rng), 'symbols': syms, 'history': history or []}
+    sysm = build_system(am, case)
+    if history:
+        fam += '+history'
+        spos = exact_rel(sysm)
     return sysm, fam, spos
 
 
@@ -257,27 +406,50 @@ def near_face_atoms(rng, U):
     return make
 
 
-NEXTRA = 14
+def spec_of(sysm):
+    """[name, kind, string table] of the extra per-atom properties in wire order."""
+    return [[name, kind, sorted(set(vals)) if kind == 's' else None] for name, kind, vals in sysm._c04['props']]
 
 
-def payload(sysm, k):
-    """every per-atom value except type and position, as exact floats: q, v (3), stress (9, row-major), tag."""
-    return ([float(sysm.atoms.q[k])] + [float(x) for x in sysm.atoms.v[k]]
-            + [float(x) for x in sysm.atoms.stress[k].ravel()] + [float(sysm.atoms.tag[k])])
+def nextra(spec):
+    return len(spec) - 4 + 1 + 3 + 9 + 1
 
 
-def sys_line(sysm):
-    """exact wire form: box (12) then atoms with NEXTRA extras each."""
+def payload(sysm, k, spec):
+    """every per-atom value except type and position of atom k, as exact floats in the order of `spec` (tensors
+    row-major; a string as its index in the table of the original's strings, -1 if it is none of them; a flag as 0/1)."""
     np = _np()
+    out = []
+    for name, kind, table in spec:
+        val = sysm.atoms.view[name][k]
+        if kind == 's':
+            out.append(float(table.index(str(val))) if str(val) in table else -1.0)
+        else:
+            out.extend(float(x) for x in np.asarray(val).ravel())
+    return out
+
+
+def sys_line(sysm, spec=None):
+    """exact wire form: box (12) then atoms with nextra(spec) extras each."""
+    spec = spec or spec_of(sysm)
     pos = sysm.atoms.pos
     parts = [cm.frs(sysm.box.vects), cm.frs(sysm.box.origin)]
     atoms = []
     for i in range(sysm.natoms):
-        atoms.append(f"{int(sysm.atoms.atype[i])} {cm.frs(pos[i])} {cm.frs(payload(sysm, i))}")
+        atoms.append(f"{int(sysm.atoms.atype[i])} {cm.frs(pos[i])} {cm.frs(payload(sysm, i, spec))}")
     return ' '.join(parts), ' '.join(atoms)
 
 
-def parse_result(out, e=NEXTRA):
+def enc_name(name):
+    return 'k' + name.encode('utf-8').hex()
+
+
+def keys_line(sysm):
+    """driver request for the names of the per-atom properties a copy made by supersize carries."""
+    return 'keys ' + ' '.join(enc_name(k) for k in sysm.atoms_prop())
+
+
+def parse_result(out, e):
     toks = out.split()
     box = [Fraction(t) for t in toks[:12]]
     n = int(toks[12])
@@ -369,25 +541,58 @@ def gen_U(rng, maxdet=6, lim=2):
             return U, d
 
 
+def gen_U_large(rng, maxdet=12, maxentry=12):
+    """anisotropic integer vectors with large indices: long thin cells along a high-index direction, one large-index
+    row in a plane, unimodular products of many shears (large entries, det +-1); |det| <= maxdet. The bounding
+    supercell of rotate then has hundreds to a few thousand replicas."""
+    while True:
+        r = rng.random()
+        if r < 0.35:        # two short vectors and a long one along [a b n]
+            n = rng.randint(4, maxentry)
+            U = [[1, 0, 0], [0, 1, 0], [rng.randint(-3, 3), rng.randint(-3, 3), rng.choice([-1, 1]) * n]]
+            rng.shuffle(U)
+            c = rng.sample(range(3), 3)
+            U = [[row[c[j]] for j in range(3)] for row in U]
+        elif r < 0.7:       # a large-index pair of in-plane vectors
+            a, b = rng.randint(3, maxentry), rng.randint(-maxentry, maxentry)
+            U = [[a, b, 0], [rng.randint(-3, 3), rng.randint(-3, 3), 0], [rng.randint(-1, 1), rng.randint(-1, 1), rng.choice([-1, 1, 2])]]
+            c = rng.sample(range(3), 3)
+            U = [[row[c[j]] for j in range(3)] for row in U]
+        else:               # unimodular, many shears
+            U = [[1, 0, 0], [0, 1, 0], [0, 0, 1]]
+            for _ in range(rng.randint(3, 6)):
+                i, j = rng.sample(range(3), 2)
+                E = [[1 if a == b else 0 for b in range(3)] for a in range(3)]
+                E[i][j] = rng.choice([-3, -2, -1, 1, 2, 3])
+                U = _matmul3(E, U)
+        d = _det3(U)
+        big = max(abs(x) for row in U for x in row)
+        if d != 0 and abs(d) <= maxdet and 4 <= big <= maxentry:
+            return U, d
+
+
 # always exercised (correspondence and oracle), on cells whose origin is not a lattice vector: the identity shortcut,
 # proper and improper axis permutations, inversion, a diagonal and a centering matrix
 FIXED_U = [[[1, 0, 0], [0, 1, 0], [0, 0, 1]], [[0, 1, 0], [0, 0, 1], [1, 0, 0]], [[0, 1, 0], [1, 0, 0], [0, 0, 1]],
            [[-1, 0, 0], [0, -1, 0], [0, 0, -1]], [[2, 0, 0], [0, 1, 0], [0, 0, 1]], [[1, -1, 0], [1, 1, 0], [0, 0, 1]]]
 
 
-def gen_case_U(rng, am, it, maxdet):
+def gen_case_U(rng, am, it, maxdet, history=None):
     """(system, family, spos, U, det): the first len(FIXED_U) cases of a batch use the fixed matrices; every third
     case has an atom (two sometimes) a hair off a face / edge / corner of the new cell."""
     if it < len(FIXED_U):
         U = [list(r) for r in FIXED_U[it]]
         extra = near_face_atoms(rng, U) if it % 2 == 0 else []
         while True:
-            sysm, fam, spos = gen_system(rng, am, extra=extra)
+            sysm, fam, spos = gen_system(rng, am, extra=extra, history=gen_history(rng) if rng.random() < 0.3 else None)
             o = sysm.box.origin @ _np().linalg.inv(sysm.box.vects)
             if _np().abs(o - _np().round(o)).max() > 1e-3:
                 break
         return sysm, fam, spos, U, _det3(U)
-    U, d = gen_U(rng, maxdet=maxdet)
+    U, d = gen_U(rng, maxdet=maxdet) if it % 12 != 7 else gen_U_large(rng)
+    if history is None and it % 10 in (3, 8, 9):
+        # the object has been used before: caches filled, cell strained by a few ppm, origin moved, pbc switched, ...
+        history = gen_history(rng)
     if it % 5 == 2:
         # cooperating: the box origin a hair below a lattice plane (so the lattice translation of rotate is decided by
         # 1e-13 .. 5e-5 of a cell) together with atoms on / a hair below the far face of the cell along the same axis
@@ -399,13 +604,12 @@ def gen_case_U(rng, am, it, maxdet):
             sp = [Fraction(rng.randint(0, 7), 8) for _ in range(3)]
             sp[j] = 1 - dl
             ex.append(tuple(sp))
-        sysm, fam, spos = gen_system(rng, am, extra=ex, far=True)
         n = [float(rng.randint(-2, 2)) for _ in range(3)]
         n[j] -= rng.choice([1.3e-13, 1.7e-9, 1.3e-6, 3.7e-5])
-        sysm.box_set(vects=sysm.box.vects, origin=_np().array(n) @ sysm.box.vects, scale=True)
-        return sysm, fam + '+origin-below-plane', spos, U, d
+        sysm, fam, spos = gen_system(rng, am, extra=ex, far=True, history=[['origin-rel', n]])
+        return sysm, fam.replace('+history', '') + '+origin-below-plane', spos, U, d
     extra = near_face_atoms(rng, U) if it % 3 == 0 else []
-    sysm, fam, spos = gen_system(rng, am, extra=extra, far=(it % 4 == 1))
+    sysm, fam, spos = gen_system(rng, am, extra=extra, far=(it % 4 == 1), history=history)
     return sysm, fam, spos, U, d
 
 
@@ -451,54 +655,85 @@ def correspond(ctx):
     np = _np()
     import atomman as am
     rng = ctx.rng
-    # --- supersize, atom for atom in order ---
+    # --- supersize, atom for atom in order; every third object has a history behind it ---
     for it in range(ctx.n(120, 1500)):
-        sysm, fam, _ = gen_system(rng, am)
+        sysm, fam, _ = gen_system(rng, am, history=gen_history(rng) if it % 3 == 2 else None)
         sizes = gen_sizes(rng)
-        bl, al = sys_line(sysm)
+        spec = spec_of(sysm)
+        e = nextra(spec)
+        bl, al = sys_line(sysm, spec)
         ns = [norm_size(s) for s in sizes]
-        line = f"supersize {NEXTRA} {sysm.natoms} {bl} " + ' '.join(f'{lo} {hi}' for lo, hi in ns) + ' ' + al
+        line = f"supersize {e} {sysm.natoms} {bl} " + ' '.join(f'{lo} {hi}' for lo, hi in ns) + ' ' + al
         out = ctx.driver.ask(line)
+        kout = ctx.driver.ask(keys_line(sysm))
         mult = math.prod(h - l for l, h in ns)
         ctx.stats.case('supersize', line, nontrivial=mult > 1,
-                       sample={'op': 'supersize', 'family': fam, 'sizes': [list(s) for s in ns], 'natoms': sysm.natoms})
+                       sample={'op': 'supersize', 'family': fam, 'sizes': [list(s) for s in ns], 'natoms': sysm.natoms,
+                               'pbc': [bool(x) for x in sysm.pbc], 'props': [nm for nm, _, _ in spec],
+                               'history': [op[0] for op in sysm._c04['history']]})
+        rp = {'op': 'supersize', 'case': sysm._c04, 'sizes': [list(s) for s in ns], 'sizes_given': sizes_repr(sizes)}
         try:
             new = sysm.supersize(*sizes)
-        except Exception as e:  # noqa - an exception of the implementation is an observation
+        except Exception as e_:  # noqa - an exception of the implementation is an observation
             if not out.startswith('err:'):
-                ctx.disagree('supersize:impl-raises', f'supersize{sizes_repr(sizes)} raised {type(e).__name__}: {e}; the model '
-                             f'returns {mult} x {sysm.natoms} atoms', {'op': 'supersize', 'line': line, 'sizes': sizes_repr(sizes)})
+                ctx.disagree('supersize:impl-raises', f'supersize{sizes_repr(sizes)} raised {type(e_).__name__}: {e_}; the model '
+                             f'returns {mult} x {sysm.natoms} atoms', rp)
             continue
         if out.startswith('err:'):
-            ctx.disagree('supersize:model-refuses', f'model refused {sizes}: {out}', {'line': line})
+            ctx.disagree('supersize:model-refuses', f'model refused {sizes}: {out}', rp)
             continue
-        box, atoms = parse_result(out)
+        # the per-atom properties the copy carries, by name and in order
+        ikeys = ' '.join(enc_name(k) for k in new.atoms_prop())
+        if ikeys != kout:
+            ctx.disagree('supersize:keys', f'supersize{sizes_repr(sizes)}: the result carries the per-atom properties '
+                         f'{new.atoms_prop()}, the model {[bytes.fromhex(t[1:]).decode() for t in kout.split()]} (input: '
+                         f'{sysm.atoms_prop()})', rp)
+            continue
+        box, atoms = parse_result(out, e)
         impl_box = list(new.box.vects.ravel()) + list(new.box.origin)
         ok = cm.allclose(impl_box, box, rtol=1e-12, atol=1e-12) and len(atoms) == new.natoms
         if ok:
-            for k, (t, p, ex) in enumerate(atoms):
-                impl_ex = payload(new, k)
-                if t != int(new.atoms.atype[k]) or not cm.allclose(new.atoms.pos[k], p, rtol=1e-9, atol=1e-9) \
+            for k, (t, p_, ex) in enumerate(atoms):
+                impl_ex = payload(new, k, spec)
+                if t != int(new.atoms.atype[k]) or not cm.allclose(new.atoms.pos[k], p_, rtol=1e-9, atol=1e-9) \
                         or not cm.allclose(impl_ex, ex, rtol=0, atol=0):
                     ok = False
                     break
         if not ok:
-            ctx.disagree('supersize', f'supersize{sizes_repr(sizes)} differs from the model (family {fam})',
-                         {'op': 'supersize', 'line': line, 'sizes': [list(s) for s in ns],
-                          'impl_natoms': int(new.natoms), 'model_natoms': len(atoms)})
-    # int forms of the multipliers
+            ctx.disagree('supersize', f'supersize{sizes_repr(sizes)} differs from the model (family {fam}, per-atom '
+                         f'properties {sysm.atoms_prop()}, history {sysm._c04["history"]})',
+                         dict(rp, impl_natoms=int(new.natoms), model_natoms=len(atoms)))
+    # int forms of the multipliers (Python and numpy integers) and every (lo, hi) tuple with entries in [-3, 3]: ranges
+    # that do not contain 0 and empty ranges are refused
+    sysm, _, _ = gen_system(random.Random(5), am)
+
+    def impl_size(arg):
+        try:
+            new = sysm.supersize(arg, 1, 1)
+            lo = round(float((new.box.origin - sysm.box.origin) @ np.linalg.inv(sysm.box.vects)[:, 0]))
+            return f'{lo} {lo + round(new.natoms / sysm.natoms)}'
+        except (TypeError, ValueError):
+            return 'err:value'
+        except Exception as e_:  # noqa
+            return f'raised {type(e_).__name__}: {e_}'
+
     for n in range(-3, 4):
         out = ctx.driver.ask(f'sizeint {n}')
-        ctx.stats.case('sizeint', n)
-        sysm, _, _ = gen_system(random.Random(5), am)
-        try:
-            new = sysm.supersize(n, 1, 1)
-            lo = round(float((new.box.origin - sysm.box.origin) @ np.linalg.inv(sysm.box.vects)[:, 0]))
-            impl = f'{lo} {lo + round(new.natoms / sysm.natoms)}'
-        except (TypeError, ValueError):
-            impl = 'err:value'
-        if impl != out:
-            ctx.disagree('supersize:int-rule', f'int multiplier {n}: implementation {impl}, model {out}', {'n': n})
+        for form in (int, np.int64, np.int32):
+            ctx.stats.case('sizeint', (n, form.__name__))
+            impl = impl_size(form(n))
+            if impl != out:
+                ctx.disagree('supersize:int-rule', f'multiplier {form.__name__}({n}): implementation {impl}, model {out}',
+                             {'op': 'sizeint', 'n': n, 'form': form.__name__})
+    for lo in range(-3, 4):
+        for hi in range(-3, 4):
+            out = ctx.driver.ask(f'sizepair {lo} {hi}')
+            for form in (int, np.int64):
+                ctx.stats.case('sizepair', (lo, hi, form.__name__))
+                impl = impl_size((form(lo), form(hi)))
+                if impl != out:
+                    ctx.disagree('supersize:tuple-rule', f'multiplier tuple ({lo}, {hi}) ({form.__name__}): implementation '
+                                 f'{impl}, model {out}', {'op': 'sizepair', 'lo': lo, 'hi': hi, 'form': form.__name__})
     # --- rotate: multiset of (type, extras, rel pos mod 1) in the new cell; the vectors are handed over in every
     #     accepted / refused form (ints, float arrays, floats within / outside the integer tolerance) ---
     for it in range(ctx.n(120, 1200)):
@@ -583,7 +818,9 @@ def gen_hex_case(rng, am):
             arg[rng.randrange(3), rng.randrange(3)] += rng.choice([-1, 1]) * rng.choice([1e-6, 0.01, 1.0])
             form = 'hex4-sum-not-zero'
         extra = near_face_atoms(rng, U) if rng.random() < 0.3 else []
-        sysm, fam, spos = gen_system(rng, am, (box, famname), extra=extra)
+        # (isotropic dilations: the cell stays hexagonal)
+        sysm, fam, spos = gen_system(rng, am, (box, famname), extra=extra,
+                                     history=gen_history(rng, iso=True) if rng.random() < 0.25 else None)
         return sysm, fam, spos, U, d, arg, form
 
 
@@ -596,17 +833,44 @@ def _tol_rel(np, V, *arrays):
     return 2.0 ** -52 * 4096 * scale * float(np.abs(np.linalg.inv(V)).sum(axis=0).max())
 
 
+def cleanup_extra(np, W):
+    """The `Box.vects` setter zeroes every component below 1e-9 of the largest one ("zero out near zero terms"). rotate
+    ends with normalize, which rebuilds the requested cell W (rows = new cell vectors) in LAMMPS form: returns the sum
+    of the magnitudes of the tilt components of that form which the clean-up removes (0.0 when it removes none - every
+    cell of the plain generators; second-order terms e^2 of a cell strained by a few ppm of shear otherwise). Results
+    are then compared at that bound instead of the rounding bound (the same exemption as in C05)."""
+    a, b, c = (np.asarray(x, dtype=float) for x in W)
+    lx = np.linalg.norm(a)
+    xy = b.dot(a) / lx
+    ly = math.sqrt(max(b.dot(b) - xy * xy, 0.0))
+    xz = c.dot(a) / lx
+    yz = (b.dot(c) - xy * xz) / ly
+    lz = math.sqrt(max(c.dot(c) - xz * xz - yz * yz, 0.0))
+    big = max(lx, ly, lz, abs(xy), abs(xz), abs(yz))
+    # (1e-15: exact zeros show up as rounding noise here; 2e-9: margin around the threshold of the clean-up)
+    return sum(abs(t) for t in (xy, xz, yz) if 1e-15 * big < abs(t) <= 2e-9 * big)
+
+
 def _corr_rotate(ctx, am, sysm, fam, U, d, kind, arg, form):
     np = _np()
-    bl, al = sys_line(sysm)
+    spec = spec_of(sysm)
+    ne = nextra(spec)
+    bl, al = sys_line(sysm, spec)
     flat = np.asarray(arg, dtype=float).ravel()
-    line = f"rotatef {NEXTRA} {sysm.natoms} {bl} {len(flat)} {cm.frs(flat)} {al}"
+    line = f"rotatef {ne} {sysm.natoms} {bl} {len(flat)} {cm.frs(flat)} {al}"
     out = ctx.driver.ask(line)
-    ctx.stats.case(kind, line, nontrivial=U != [[1, 0, 0], [0, 1, 0], [0, 0, 1]],
-                   sample={'op': kind, 'family': fam, 'U': U, 'det': d, 'natoms': sysm.natoms, 'uvws_form': form})
+    pbc_in = [bool(x) for x in sysm.pbc]
+    ctx.stats.case(kind, line + ' pbc ' + ''.join('p' if x else 'f' for x in pbc_in),
+                   nontrivial=U != [[1, 0, 0], [0, 1, 0], [0, 0, 1]],
+                   sample={'op': kind, 'family': fam, 'U': U, 'det': d, 'natoms': sysm.natoms, 'uvws_form': form,
+                           'pbc': pbc_in, 'props': [nm for nm, _, _ in spec],
+                           'history': [op[0] for op in sysm._c04['history']]})
     ctx.extra.setdefault('uvws_forms', {})
     ctx.extra['uvws_forms'][form] = ctx.extra['uvws_forms'].get(form, 0) + 1
-    rp = {'op': 'rotate', 'line': line, 'U': U, 'uvws': np.asarray(arg, dtype=float).tolist(), 'form': form}
+    ctx.extra.setdefault('pbc_settings', {})
+    pk = ''.join('p' if x else 'f' for x in pbc_in)
+    ctx.extra['pbc_settings'][pk] = ctx.extra['pbc_settings'].get(pk, 0) + 1
+    rp = {'op': 'rotate', 'case': sysm._c04, 'U': U, 'uvws': np.asarray(arg, dtype=float).tolist(), 'form': form}
 
     def on_face(rel):
         # within the reach of the first rung of the tolerance ladder (1e-4) of a face of the new cell
@@ -626,7 +890,7 @@ def _corr_rotate(ctx, am, sysm, fam, U, d, kind, arg, form):
         new, T = sysm.rotate(arg, return_transform=True)
     except ValueError as e:
         if not out.startswith('err:'):
-            mbox, matoms = parse_result(out)
+            mbox, matoms = parse_result(out, ne)
             if kind == 'rotate-outside':
                 # an image exactly on a face of the new cell (s = 0 or 1 up to rounding) is assigned to one of two
                 # lattice-equivalent positions by the float tolerance ladder and to the other in exact arithmetic; for
@@ -649,7 +913,17 @@ def _corr_rotate(ctx, am, sysm, fam, U, d, kind, arg, form):
         ctx.disagree(kind + ':model-refuses', f'model refused uvws={np.asarray(arg).tolist()} ({form}): {out}; rotate '
                      f'returned {new.natoms} atoms', rp)
         return
-    mbox, matoms = parse_result(out)
+    # the model's re-oriented cell is fully periodic whatever the flags of the input were (driver op `pbc`)
+    pout = ctx.driver.ask('pbc ' + ' '.join('1' if x else '0' for x in pbc_in) + ' ' + ' '.join(str(x) for r in U for x in r))
+    if ' '.join('1' if x else '0' for x in new.pbc) != pout:
+        ctx.disagree(kind + ':pbc', f'rotate uvws={np.asarray(arg).tolist()} of a system with pbc {pbc_in}: the result has pbc '
+                     f'{[bool(x) for x in new.pbc]}, the model {pout} (documented: a new fully periodic system)', rp)
+    kout = ctx.driver.ask(keys_line(sysm))
+    if ' '.join(enc_name(k) for k in new.atoms_prop()) != kout:
+        ctx.disagree(kind + ':keys', f'rotate uvws={np.asarray(arg).tolist()}: the result carries the per-atom properties '
+                     f'{new.atoms_prop()}, the input {sysm.atoms_prop()}', rp)
+        return
+    mbox, matoms = parse_result(out, ne)
     # model: relative coordinates in the model's new box
     V = [[mbox[3 * i + j] for j in range(3)] for i in range(3)]
     o = mbox[9:12]
@@ -662,11 +936,15 @@ def _corr_rotate(ctx, am, sysm, fam, U, d, kind, arg, form):
             s = [s[0], s[1], 1 - s[2]]
         mset.append((t, tuple(ex), tuple(s)))
     spos = new.atoms_prop('pos', scale=True)
-    iset = [(int(new.atoms.atype[k]), tuple(Fraction(x) for x in payload(new, k)), tuple(spos[k]))
+    iset = [(int(new.atoms.atype[k]), tuple(Fraction(x) for x in payload(new, k, spec)), tuple(spos[k]))
             for k in range(new.natoms)]
     # the kept atoms are the supercell atoms themselves (never moved): the implementation's relative coordinates
     # agree with the exact ones up to rounding, also for atoms 1e-7 off a face
     tol = _tol_rel(np, new.box.vects, new.atoms.pos, sysm.box.origin, sysm.box.vects)
+    cl = cleanup_extra(np, np.array(U, dtype=float) @ sysm.box.vects)
+    if cl:
+        tol += 4 * cl * float(np.abs(np.linalg.inv(new.box.vects)).sum(axis=0).max())
+        ctx.extra['rotate_cleanup_bound_cases'] = ctx.extra.get('rotate_cleanup_bound_cases', 0) + 1
     if not match_multisets(iset, mset, tol=tol):
         ctx.disagree(kind, f'rotate uvws={np.asarray(arg).tolist()} ({form}, family {fam}): kept atoms differ from the '
                      f'model ({new.natoms} vs {len(matoms)}; positions compared to {tol:.1e} relative)',
@@ -714,12 +992,13 @@ def match_multisets(iset, mset, tol):
 # search: the clauses of the property on the real code, exact lattice arithmetic
 # ----------------------------------------------------------------------------------------------
 def _all_payload(sysm, k):
-    """every per-atom value other than type and position (whatever properties the system has), flattened."""
+    """every per-atom value other than type and position (whatever properties the system has, under whatever names),
+    as (name, values) pairs: numbers, strings and flags compared as they are."""
     out = []
     for key in sorted(sysm.atoms_prop()):
         if key in ('atype', 'pos'):
             continue
-        out.extend(float(x) for x in _np().asarray(sysm.atoms.view[key][k]).ravel())
+        out.append((key, tuple(_np().asarray(sysm.atoms.view[key][k]).ravel().tolist())))
     return tuple(out)
 
 
@@ -728,7 +1007,7 @@ def _orig_records(sysm, spos):
             for i in range(sysm.natoms)]
 
 
-def _check_same_crystal(ctx, key, what, sysm, spos, new, T, count, replay):
+def _check_same_crystal(ctx, key, what, sysm, spos, new, T, count, replay, extra_tol=0.0):
     """every atom of `new` maps through T, modulo the original lattice, onto an original atom with the same
     payload; each original `count` times; no two coincide modulo the new lattice; returns False on violation."""
     np = _np()
@@ -738,6 +1017,7 @@ def _check_same_crystal(ctx, key, what, sysm, spos, new, T, count, replay):
     # "maps onto an original atom modulo the lattice" is evaluated at the rounding bound of the float data (about
     # 1e-11 relative), not at a loose tolerance: an atom moved by 1e-7 of a cell is not the original atom
     tol = _tol_rel(np, sysm.box.vects, new.atoms.pos, sysm.box.origin, new.box.vects) if new.natoms else 1e-9
+    tol += extra_tol
     if new.natoms != count * sysm.natoms:
         ctx.violate(key + ':count', f'{what}: {new.natoms} atoms, expected {count} x {sysm.natoms}', replay)
         return False
@@ -808,10 +1088,13 @@ def _oracle_rotate(ctx, am, sysm, fam, spos, U, d, arg, form, accepted, key, tol
     np = _np()
     I3 = np.eye(3)
     uv = np.asarray(arg, dtype=float).tolist()
-    replay = {'op': 'rotate', 'family': fam, 'vects': sysm.box.vects.tolist(), 'origin': sysm.box.origin.tolist(),
-              'spos': [[float(x) for x in sp] for sp in spos], 'atype': sysm.atoms.atype.tolist(), 'U': U, 'uvws': uv,
-              'form': form, 'accepted': accepted, 'tol': tol}
-    what = f'rotate uvws={uv} ({form}; integers {U}, det {d}; {fam})' + (f' tol={tol}' if tol is not None else '')
+    replay = {'op': 'rotate', 'family': fam, 'case': sysm._c04, 'vects': sysm.box.vects.tolist(),
+              'origin': sysm.box.origin.tolist(), 'spos': [[float(x) for x in sp] for sp in spos],
+              'atype': sysm.atoms.atype.tolist(), 'U': U, 'uvws': uv, 'form': form, 'accepted': accepted, 'tol': tol}
+    pbc_in = [bool(x) for x in sysm.pbc]
+    what = (f'rotate uvws={uv} ({form}; integers {U}, det {d}; {fam}; pbc {pbc_in}'
+            + (f'; history on the object {sysm._c04["history"]}' if sysm._c04['history'] else '') + ')'
+            + (f' tol={tol}' if tol is not None else ''))
     before = (sysm.atoms.pos.copy(), sysm.box.vects.copy(), sysm.box.origin.copy(), sysm.atoms.atype.copy())
     try:
         if tol is None:
@@ -829,11 +1112,17 @@ def _oracle_rotate(ctx, am, sysm, fam, spos, U, d, arg, form, accepted, key, tol
                     replay)
         return
     if not (np.array_equal(before[0], sysm.atoms.pos) and np.array_equal(before[1], sysm.box.vects)
-            and np.array_equal(before[2], sysm.box.origin) and np.array_equal(before[3], sysm.atoms.atype)):
+            and np.array_equal(before[2], sysm.box.origin) and np.array_equal(before[3], sysm.atoms.atype)
+            and pbc_in == [bool(x) for x in sysm.pbc]):
         ctx.violate(key + ':input-mutated', f'{what}: rotate changed the system it was called on (box '
                     f'{before[1].tolist()} at {before[2].tolist()} -> {sysm.box.vects.tolist()} at '
-                    f'{sysm.box.origin.tolist()})', replay)
-    if not _check_same_crystal(ctx, key, what, sysm, spos, new, T, abs(d), replay):
+                    f'{sysm.box.origin.tolist()}, pbc {pbc_in} -> {[bool(x) for x in sysm.pbc]})', replay)
+    cl = cleanup_extra(np, np.array(U, dtype=float) @ sysm.box.vects)
+    if cl:
+        # the clean-up of the Box.vects setter removed a tilt component of the normalized cell: compared at that bound
+        cl = 4 * cl * float(np.abs(np.linalg.inv(sysm.box.vects)).sum(axis=0).max())
+        ctx.extra['oracle_rotate_cleanup_bound_cases'] = ctx.extra.get('oracle_rotate_cleanup_bound_cases', 0) + 1
+    if not _check_same_crystal(ctx, key, what, sysm, spos, new, T, abs(d), replay, extra_tol=cl):
         return
     _check_new_vectors(ctx, key + ':vectors', what, sysm, U, new, T, replay)
     if not new.box.is_lammps_norm():
@@ -851,42 +1140,60 @@ def search(ctx, broken):
     rng = random.Random(ctx.seed * 7919 + 17)
     scale = 3 if broken else 1
     I3 = np.eye(3)
-    # supersize
+    # supersize (every third object has a history behind it)
     for it in range(ctx.n(60, 600) * scale):
-        sysm, fam, spos = gen_system(rng, am)
+        sysm, fam, spos = gen_system(rng, am, history=gen_history(rng) if it % 3 == 1 else None)
         before = (sysm.atoms.pos.copy(), sysm.box.vects.copy(), sysm.box.origin.copy())
         sizes = gen_sizes(rng)
         ns = [norm_size(s) for s in sizes]
         M = math.prod(h - l for l, h in ns)
-        replay = {'op': 'supersize', 'family': fam, 'vects': sysm.box.vects.tolist(), 'origin': sysm.box.origin.tolist(),
-                  'spos': [[float(x) for x in s] for s in spos], 'atype': sysm.atoms.atype.tolist(), 'sizes': [list(s) for s in ns]}
-        ctx.stats.case('oracle:supersize', (fam, sizes_repr(sizes), tuple(spos)))
+        replay = {'op': 'supersize', 'family': fam, 'case': sysm._c04, 'vects': sysm.box.vects.tolist(),
+                  'origin': sysm.box.origin.tolist(), 'spos': [[float(x) for x in s] for s in spos],
+                  'atype': sysm.atoms.atype.tolist(), 'sizes': [list(s) for s in ns]}
+        ctx.stats.case('oracle:supersize', (fam, sizes_repr(sizes), tuple(spos), tuple(sysm.atoms_prop()), tuple(sysm.pbc)))
+        what = (f'supersize{sizes_repr(sizes)} ({fam}; pbc {[bool(x) for x in sysm.pbc]}; per-atom properties '
+                f'{sysm.atoms_prop()}' + (f'; history on the object {sysm._c04["history"]}' if sysm._c04['history'] else '') + ')')
         try:
             new = sysm.supersize(*sizes)
         except Exception as e:  # noqa
-            ctx.violate('supersize:raises', f'supersize{sizes_repr(sizes)} ({fam}) raised {type(e).__name__}: {e} for valid '
+            ctx.violate('supersize:raises', f'{what} raised {type(e).__name__}: {e} for valid '
                         f'integer multipliers', dict(replay, sizes_given=sizes_repr(sizes)))
             continue
-        _check_same_crystal(ctx, 'supersize', f'supersize{sizes_repr(sizes)} ({fam})', sysm, spos, new, I3, M, replay)
+        _check_same_crystal(ctx, 'supersize', what, sysm, spos, new, I3, M, replay)
         V0, o0 = before[1], before[2]
         wantv = np.array([V0[i] * (ns[i][1] - ns[i][0]) for i in range(3)])
         wanto = o0 + sum(V0[i] * ns[i][0] for i in range(3))
         if not (np.allclose(new.box.vects, wantv, rtol=0, atol=1e-9) and np.allclose(new.box.origin, wanto, rtol=0, atol=1e-9)):
-            ctx.violate('supersize:box', f'supersize{sizes_repr(sizes)} ({fam}): box {new.box.vects.tolist()} at '
+            ctx.violate('supersize:box', f'{what}: box {new.box.vects.tolist()} at '
                         f'{new.box.origin.tolist()}, expected the multiplied vectors {wantv.tolist()} at {wanto.tolist()}',
                         replay)
         if not (np.array_equal(before[0], sysm.atoms.pos) and np.array_equal(before[1], sysm.box.vects)
                 and np.array_equal(before[2], sysm.box.origin)):
-            ctx.violate('supersize:input-mutated', 'supersize changed its input system', replay)
-    # refusals of supersize
+            ctx.violate('supersize:input-mutated', f'{what} changed its input system', replay)
+    # refusals of supersize: zero multipliers (int, numpy int, empty tuple), tuple ranges that do not contain 0,
+    # non-integers, lists, tuples of the wrong length
     sysm, fam, spos = gen_system(rng, am)
-    for bad in [(0, 1, 1), ((1, 2), 1, 1), ((-1, -1), 1, 1), (1.5, 1, 1), ((0, 0), 1, 1)]:
-        ctx.stats.case('oracle:supersize-refusal', bad)
+    i64 = np.int64
+    bads = [(0, 1, 1), (1, i64(0), 1), (1, 1, np.int32(0)), ((0, 0), 1, 1), ((i64(0), 0), 1, 1), ((1, 2), 1, 1), (1, (1, 3), 1),
+            ((-1, -1), 1, 1), (1, 1, (-3, -1)), ((i64(2), i64(4)), 1, 1), (1.5, 1, 1), (1, (0, 1.5), 1), ([0, 2], 1, 1),
+            ((0, 1, 2), 1, 1), ('2', 1, 1), (None, 1, 1)]
+    for _ in range(ctx.n(6, 30)):
+        lo, w = rng.randint(1, 4), rng.randint(0, 3)
+        b = [1, 1, 1]
+        b[rng.randrange(3)] = rng.choice([(lo, lo + w), (-lo - w, -lo), (i64(lo), i64(lo + w))])
+        bads.append(tuple(b))
+    for bad in bads:
+        ctx.stats.case('oracle:supersize-refusal', repr(bad))
         try:
-            sysm.supersize(*bad)
-            ctx.violate('supersize:refusal', f'supersize{bad} was accepted', {'op': 'supersize-refusal', 'sizes': str(bad)})
+            new = sysm.supersize(*bad)
+            ctx.violate('supersize:refusal', f'supersize{bad!r} was accepted ({new.natoms} atoms from {sysm.natoms}): a zero '
+                        f'multiplier / a tuple range that does not contain 0 / a non-integer is a documented refusal',
+                        {'op': 'supersize-refusal', 'sizes': repr(bad)})
         except (TypeError, ValueError):
             pass
+        except Exception as e:  # noqa
+            ctx.violate('supersize:refusal', f'supersize{bad!r} raised {type(e).__name__} ({e}) instead of its documented '
+                        f'TypeError / ValueError', {'op': 'supersize-refusal', 'sizes': repr(bad)})
     # rotate: the vectors are handed over as ints, float arrays and floats within / outside the integer tolerance
     for it in range(ctx.n(400, 2000) * scale):
         sysm, fam, spos, U, d = gen_case_U(rng, am, it, ctx.n(5, 8))
@@ -1011,19 +1318,85 @@ def gen_conv_case(rng, am, setting, mode='random'):
         shift = [rng.choice([-1, 1]) * rng.choice([Fraction(1, 10 ** 5), Fraction(1, 10 ** 3), Fraction(3, 10 ** 3),
                                                    Fraction(1, 10 ** 2)]) for _ in range(3)]
         stored = [tuple(t[k] + shift[k] for k in range(3)) for t in stored]
+    # names of the two per-atom properties (a float and an integer), the periodicity flags (a flag other than fully
+    # periodic only where every coordinate is stored in [0, 1): the lattice-site test looks atoms up with the system's own
+    # flags) and what was done to the object before (isotropic dilations with the relative coordinates held: the crystal
+    # family and the lattice sites survive)
+    names = rng.sample(NAME_POOL, 2)
     return {'setting': setting, 'family': fam, 'mode': mode, 'vects': box.vects.tolist(), 'origin': box.origin.tolist(),
             'shift': [[x.numerator, x.denominator] for x in shift],
             'symbols': rng.sample(['Al', 'Ni', 'Cu', 'Fe', 'O'], len(set(mtype))) if rng.random() < 0.5 else None,
             'stored': [[float(x) for x in t] for t in stored], 'atype': [mtype[j] for j in midx],
-            'q': [mq[j] for j in midx], 'tag': [mtag[j] for j in midx]}
+            'q': [mq[j] for j in midx], 'tag': [mtag[j] for j in midx], 'names': names,
+            'pbc': gen_pbc(rng) if mode in ('plain', 'offset') else [True, True, True],
+            'history': gen_history(rng, iso=True, keep_rel=True, pbc_ops=False) if (mode == 'random' and rng.random() < 0.4) else []}
 
 
 def build_conv(am, case):
     np = _np()
-    atoms = am.Atoms(atype=case['atype'], pos=np.array(case['stored'], dtype=float), q=np.array(case['q'], dtype=float),
-                     tag=np.array(case['tag'], dtype=int))
-    return am.System(atoms=atoms, box=am.Box(vects=case['vects'], origin=case['origin']), scale=True,
-                     symbols=case.get('symbols'))
+    from collections import OrderedDict
+    nq, nt = case.get('names', ['q', 'tag'])
+    prop = OrderedDict(atype=np.array(case['atype'], dtype=int), pos=np.array(case['stored'], dtype=float))
+    prop[nq] = np.array(case['q'], dtype=float)
+    prop[nt] = np.array(case['tag'], dtype=int)
+    conv = am.System(atoms=am.Atoms(prop=prop), box=am.Box(vects=case['vects'], origin=case['origin']), scale=True,
+                     pbc=case.get('pbc', (True, True, True)), symbols=case.get('symbols'))
+    for op in case.get('history', []):
+        apply_op(conv, op)
+    return conv
+
+
+def gen_mixed_case(rng, am, setting):
+    """a cell that is NOT compatible with the (centred) setting because one of its lattice sites holds an atom of
+    another type than the site at the origin: B2 given as 'i', L1_2 as 'f', a two-type C-net as 'c', ... The centring
+    translation is no symmetry of the typed crystal, so no primitive cell of that setting describes it: refusal is the
+    required outcome - whatever the types are called (symbols unset / all different / two types sharing a symbol)."""
+    case = gen_conv_case(rng, am, setting, mode=rng.choice(['plain', 'plain', 'far', 'random']))
+    case['history'] = []
+    nsites = NLAT[setting]
+    per = len(case['atype']) // nsites
+    k = rng.randrange(1, nsites) * per          # the atom on a centring site (never the one at the origin)
+    ntypes = max(case['atype'])
+    other = [t for t in range(1, ntypes + 2) if t != case['atype'][k]]
+    case['atype'][k] = rng.choice(other)
+    ntypes = max(case['atype'])
+    r = rng.random()
+    if r < 0.4:
+        case['symbols'], case['symbols_kind'] = None, 'unset'
+    elif r < 0.7:
+        case['symbols'], case['symbols_kind'] = rng.sample(['Al', 'Ni', 'Cu', 'Fe', 'O'], ntypes), 'distinct'
+    else:
+        sy = rng.sample(['Al', 'Ni', 'Cu', 'Fe', 'O'], ntypes)
+        sy[case['atype'][k] - 1] = sy[0]        # the odd site's type is called like the origin site's type (type 1)
+        case['symbols'], case['symbols_kind'] = sy, 'shared'
+    case['mixed_site_atom'] = k
+    case['op'] = 'conversion-mixed'
+    case['call_setting'] = 't' if setting[0] == 't' and rng.random() < 0.3 else setting
+    return case
+
+
+def _run_mixed(ctx, am, case):
+    """conventional_to_primitive of an incompatible multi-type cell must refuse (ValueError)."""
+    np = _np()
+    setting = case['setting']
+    conv = build_conv(am, case)
+    comp = {int(t): int(np.sum(conv.atoms.atype == t)) for t in np.unique(conv.atoms.atype)}
+    what = (f"{case['family']} cell, setting {setting}" + (" (called with 't')" if case['call_setting'] != setting else '')
+            + f", symbols {case['symbols']} ({case['symbols_kind']}), atom types {case['atype']} at relative positions "
+            f"{case['stored']}: the lattice site holding atom {case['mixed_site_atom']} has type "
+            f"{case['atype'][case['mixed_site_atom']]}, the site at the origin type {case['atype'][0]}")
+    try:
+        prim = conv.dump('conventional_to_primitive', setting=case['call_setting'])
+    except ValueError:
+        return
+    except Exception as e:  # noqa
+        ctx.violate('conversion:mixed-raises', f'conventional_to_primitive raised {type(e).__name__}: {e} instead of its '
+                    f'documented ValueError for an incompatible {what}', case)
+        return
+    pcomp = {int(t): int(np.sum(prim.atoms.atype == t)) * NLAT[setting] for t in np.unique(prim.atoms.atype)}
+    ctx.violate('conversion:mixed-accepted', f'conventional_to_primitive accepted an incompatible {what}; the primitive cell x '
+                f'{NLAT[setting]} holds atoms per type {pcomp} (volume {prim.box.volume * NLAT[setting]:.6g}), the conventional '
+                f'cell {comp} (volume {conv.box.volume:.6g}): not the same crystal', case)
 
 
 def conv_exact_spos(case):
@@ -1046,6 +1419,16 @@ def _search_conversions(ctx, rng, am):
                            sample={'op': 'c2p->p2c', 'setting': setting, 'family': case['family'],
                                    'natoms': len(case['atype']), 'storage': case['mode']})
             _run_conversion(ctx, am, case)
+    # multi-type cells whose centring sites hold another type: refusal required
+    for setting in CONV_SITES:
+        if NLAT[setting] == 1:
+            continue
+        for _ in range(ctx.n(6, 40)):
+            case = gen_mixed_case(rng, am, setting)
+            ctx.stats.case('oracle:conversion-mixed', (setting, repr(case['stored']), repr(case['atype']), repr(case['symbols'])),
+                           sample={'op': 'c2p-refusal', 'setting': setting, 'family': case['family'],
+                                   'symbols': case['symbols_kind'], 'natoms': len(case['atype'])})
+            _run_mixed(ctx, am, case)
 
 
 def _run_conversion(ctx, am, case):
@@ -1054,7 +1437,9 @@ def _run_conversion(ctx, am, case):
     conv = build_conv(am, case)
     replay = case
     what = (f"{case['family']} cell, setting {setting}" + (" (called with 't')" if case['call_setting'] != setting else '')
-            + ('' if case['check_basis'] else ', check_basis=False') + f", relative positions {case['stored']}")
+            + ('' if case['check_basis'] else ', check_basis=False') + f", relative positions {case['stored']}"
+            + (f", pbc {case['pbc']}" if not all(case.get('pbc', [True])) else '')
+            + (f", history on the object {case['history']}" if case.get('history') else ''))
     before = conv.atoms.pos.copy()
     try:
         prim, T1 = conv.dump('conventional_to_primitive', setting=case['call_setting'], return_transform=True,
@@ -1164,6 +1549,7 @@ def _corr_basis(ctx, rng, am):
                 ask_setting = rng.choice([x for x in CONV_SITES if x != setting])
             if not case['atype']:
                 continue
+            case['pbc'] = [True, True, True]        # (the model's lookup is periodic)
             conv = build_conv(am, case)
             V = [[Fraction(x) for x in row] for row in conv.box.vects.tolist()]
             o = [Fraction(x) for x in conv.box.origin.tolist()]
@@ -1220,13 +1606,9 @@ def replay(ctx, payload):
     np = _np()
     import atomman as am
     r = payload.get('replay', {})
-    if r.get('op') in ('supersize', 'rotate') and 'vects' in r:
-        box = am.Box(vects=r['vects'], origin=r['origin'])
-        n = len(r['spos'])
-        atoms = am.Atoms(atype=r['atype'], pos=np.array(r['spos']), q=np.zeros(n), v=np.zeros((n, 3)),
-                         tag=np.arange(n) + 1)
-        sysm = am.System(atoms=atoms, box=box, scale=True)
-        spos = [tuple(Fraction(x) for x in s) for s in r['spos']]
+    if r.get('op') in ('supersize', 'rotate') and 'case' in r and 'family' in r:
+        sysm = build_system(am, r['case'])
+        spos = exact_rel(sysm) if r['case'].get('history') else [tuple(Fraction(x) for x in s) for s in r['spos']]
         if r['op'] == 'supersize':
             sizes = [tuple(s) for s in r['sizes']]
             new = sysm.supersize(*sizes)
@@ -1238,5 +1620,7 @@ def replay(ctx, payload):
                            r.get('accepted', True), 'rotate', tol=r.get('tol'))
     elif r.get('op') == 'conversion' and 'stored' in r:
         _run_conversion(ctx, am, r)
+    elif r.get('op') == 'conversion-mixed' and 'stored' in r:
+        _run_mixed(ctx, am, r)
     else:
         search(ctx, True)
